@@ -603,6 +603,64 @@ def nocache_section(ctx, G, R, C12, base, pending):
         log.close()
 
 
+# ------------------------------------------------------------------------------------------------ transient failures
+def flaky_history(ctx, G, R, log, name, mk, ne, tag):
+    """a sub-workflow that fails in execution 1 and succeeds in execution 2 (a flag file outside all hashes), parent cached:
+    per execution the subrun outcome equals the direct outcome and the same task calls are executed"""
+    from redun.scheduler import subrun
+
+    from props import _evallib as L
+    res = {}
+    for how in ("direct", "subrun"):
+        box = Box(R)
+        flags = tempfile.mkdtemp(prefix="verif-c38-flaky-")
+        L.FLAKY["dir"] = flags
+        try:
+            runs = []
+            for k in (1, 2):
+                sched = box.scheduler()
+                expr = mk() if how == "direct" else subrun(mk(), executor="default", new_execution=ne)
+                log.take()
+                o, _ = R.run_free(expr, sched=sched, timeout=90)
+                runs.append((o, log.take()))
+            res[how] = runs
+        finally:
+            L.FLAKY["dir"] = None
+            shutil.rmtree(flags, ignore_errors=True)
+            box.close()
+    case = {"flaky_case": True, "program": name, "new_execution": ne, "tag": tag}
+    for k in (0, 1):
+        d, s_ = res["direct"][k], res["subrun"][k]
+        if d[0] != s_[0]:
+            sig = "C38-stale-failure-replayed" if (k == 1 and s_[0][0] == "err" and d[0][0] == "ok") else "C38-result-differs"
+            ctx.violation(sig, "execution %d: subrun(e) gives another outcome than evaluating e (a sub-workflow that failed earlier "
+                          "and would succeed now is not run again: the recorded result of the sub-execution is replayed)" % (k + 1),
+                          case=dict(case, execution=k + 1), expected={"direct": [G.show(r[0]) for r in res["direct"]]},
+                          actual={"subrun": [G.show(r[0]) for r in res["subrun"]]}, kind="history")
+        if d[1] != s_[1]:
+            ctx.violation("C38-second-execution-runs-other-tasks" if k == 1 else "C38-first-execution-runs-other-tasks",
+                          "execution %d executes other task calls through subrun than directly" % (k + 1),
+                          case=dict(case, execution=k + 1), expected={"direct executes": [c[0] for c in d[1]]},
+                          actual={"subrun executes": [c[0] for c in s_[1]]}, kind="history")
+    ctx.case(key=("flaky", name, ne), mode="transient-failure-history", new_execution=str(ne),
+             sample={"program": name, "new_execution": ne, "direct": [G.show(r[0])[:60] for r in res["direct"]],
+                     "subrun": [G.show(r[0])[:60] for r in res["subrun"]]})
+
+
+def flaky_section(ctx, G, R, base):
+    from props import _evallib as L
+    log = ExecLog()
+    try:
+        t = random.Random(base * 19 + 7).randrange(100, 999)
+        flaky_history(ctx, G, R, log, "flaky-leaf", lambda: L.flaky(t), False, t)
+        flaky_history(ctx, G, R, log, "flaky-in-tree", lambda: L.add(L.inc(L.flaky(t + 1)), b=L.inc(1)), True, t + 1)
+        if ctx.tier != "quick":
+            flaky_history(ctx, G, R, log, "flaky-in-tree", lambda: L.add(L.inc(L.flaky(t + 2)), b=L.inc(1)), False, t + 2)
+            flaky_history(ctx, G, R, log, "flaky-leaf", lambda: L.flaky(t + 3), True, t + 3)
+    finally:
+        log.close()
+
+
 # ------------------------------------------------------------------------------------------------ context forwarding
 CTX_SCENARIOS = [
     # (config context, Scheduler.run(context=...), update_context on the calling task)
@@ -793,6 +851,7 @@ def run(ctx):
         run_program(ctx, G, R, C12, name, e, sx, rep_e, {False: rep_f, True: rep_t}, cfgs, pending)
     nocache_section(ctx, G, R, C12, base, pending)
     C12.flush_lookups(ctx, pending)
+    flaky_section(ctx, G, R, base)
     context_section(ctx, G, R, base)
     fresh_process_section(ctx, G, R, base)      # before modules_section: its synthetic modules exist in this process only
     modules_section(ctx, G, R, base)
@@ -803,6 +862,8 @@ def replay(ctx, case):
     from props import _evalgen as G
     from props import _evalrun as R
     c = case.get("case") or {}
+    if c.get("flaky_case"):
+        return flaky_section(ctx, G, R, ctx.seed)
     if c.get("modules_case"):
         return modules_section(ctx, G, R, ctx.seed)
     if c.get("fresh_process_case"):
